@@ -195,6 +195,7 @@ METHOD(m_vptr, int(virtual_ptr<Base, Pol>));
 METHOD(m_vptr1, int(int, virtual_ptr<Base, Pol>, int));
 METHOD(m_vsptr, int(virtual_shared_ptr<Base, Pol>));
 METHOD(m_cvsptr, int(const virtual_shared_ptr<Base, Pol>&));
+METHOD(m_vsptrc, int(virtual_shared_ptr<const Base, Pol>));
 METHOD(m_two, int(virtual_<Base&>, virtual_<Base*>));
 // non-virtual categories
 METHOD(n_value, int(virtual_<Base&>, Tracked));
@@ -203,6 +204,13 @@ METHOD(n_rref, int(Tracked&&, virtual_<Base&>));
 METHOD(n_moveonly, int(virtual_<Base&>, MoveOnly));
 METHOD(n_ret, Tracked(virtual_<Base&>));
 METHOD(n_retref, Tracked&(virtual_<Base&>, Tracked&));
+// a definition may return a pointer to a class derived from the one the method returns (here its second base):
+// the caller must get the pointer adjusted to the method's return class; the definition has the method's own parameters
+struct RBase { virtual ~RBase() {} int r = 7; };
+struct RPad { virtual ~RPad() {} long pad[2] = {1, 2}; };
+struct RDer : RPad, RBase { int x = 8; };
+static RDer g_rder;
+METHOD(n_retcov, RBase*(virtual_<Base&>));
 static std::shared_ptr<Base> g_owner;
 static int d_ref(Derived& d) { see(d); return 1; }
 static int d_ref1(int x, Derived& d) { see(d, x); return 1; }
@@ -214,6 +222,7 @@ static int d_cshared(double x, const std::shared_ptr<Derived>& d) { see(*d, (int
 static int d_vptr(virtual_ptr<Derived, Pol> d) { see(*d); return 1; }
 static int d_vptr1(int x, virtual_ptr<Derived, Pol> d, int y) { see(*d, x * 10 + y); return 1; }
 static int d_vsptr(virtual_shared_ptr<Derived, Pol> d) { see(*d); seen.owner_same = !d.get().owner_before(g_owner) && !g_owner.owner_before(d.get()); seen.use = d.get().use_count(); return 1; }
+static int d_vsptrc(virtual_shared_ptr<const Derived, Pol> d) { see(*d); return 1; }
 static int d_cvsptr(const virtual_shared_ptr<Derived, Pol>& d) { see(*d); seen.owner_same = !d.get().owner_before(g_owner) && !g_owner.owner_before(d.get()); return 1; }
 static int d_two(Derived& a, Derived* b) { see(a); seen.extra = (&a == b) ? 1 : 0; return 1; }
 static int dn_value(Derived& d, Tracked t) { see(d, t.v); return 1; }
@@ -222,11 +231,12 @@ static int dn_rref(Tracked&& t, Derived& d) { see(d, t.v); seen.most = &t; retur
 static int dn_moveonly(Derived& d, MoveOnly t) { see(d, t.v); return 1; }
 static Tracked dn_ret(Derived& d) { see(d); return Tracked(); }
 static Tracked& dn_retref(Derived& d, Tracked& t) { see(d); return t; }
+static RDer* dn_retcov(Base&) { return &g_rder; }
 #define ADD(M, F) static typename M::template add_function<F> YOMM2_GENSYM
 ADD(m_ref, d_ref); ADD(m_ref1, d_ref1); ADD(m_cref, d_cref); ADD(m_rref, d_rref); ADD(m_ptr, d_ptr);
 ADD(m_shared, d_shared); ADD(m_cshared, d_cshared); ADD(m_vptr, d_vptr); ADD(m_vptr1, d_vptr1);
-ADD(m_vsptr, d_vsptr); ADD(m_cvsptr, d_cvsptr); ADD(m_two, d_two);
-ADD(n_value, dn_value); ADD(n_lref, dn_lref); ADD(n_rref, dn_rref); ADD(n_moveonly, dn_moveonly); ADD(n_ret, dn_ret); ADD(n_retref, dn_retref);
+ADD(m_vsptr, d_vsptr); ADD(m_cvsptr, d_cvsptr); ADD(m_two, d_two); ADD(m_vsptrc, d_vsptrc);
+ADD(n_value, dn_value); ADD(n_lref, dn_lref); ADD(n_rref, dn_rref); ADD(n_moveonly, dn_moveonly); ADD(n_ret, dn_ret); ADD(n_retref, dn_retref); ADD(n_retcov, dn_retcov);
 static void report(const char* kind, const Derived& obj, int extra_expected) {
     std::printf("arg kind=%%s same=%%d most=%%d value=%%d extra=%%d\n", kind, seen.as_derived == &obj,
                 seen.most == dynamic_cast<const void*>(&obj), seen.d == 2, seen.extra == extra_expected);
@@ -264,6 +274,15 @@ int main() {
         seen = {}; m_vsptr::fn(virtual_shared_ptr<Base, Pol>(std::shared_ptr<Base>(sd))); report("vsptr<-rvalue", *sd, 0);
         virtual_shared_ptr<Derived, Pol> vd(sd);
         seen = {}; m_vsptr::fn(virtual_shared_ptr<Base, Pol>(vd)); report("vsptr<-derived", *sd, 0);
+        // pointers to const objects: from a pointer to the base (dynamic type looked up), from a pointer of exactly
+        // the object's class (static type used), copied, and converted to the base afterwards
+        std::shared_ptr<const Base> cb = sd;
+        std::shared_ptr<const Derived> cd = sd;
+        seen = {}; m_vsptrc::fn(virtual_shared_ptr<const Base, Pol>(cb)); report("vsptr-const<-base", *sd, 0);
+        virtual_shared_ptr<const Derived, Pol> vcd(cd);
+        seen = {}; m_vsptrc::fn(virtual_shared_ptr<const Base, Pol>(vcd)); report("vsptr-const<-exact", *sd, 0);
+        virtual_shared_ptr<const Derived, Pol> vcd2(vcd);
+        seen = {}; m_vsptrc::fn(vcd2); report("vsptr-const<-copy", *sd, 0);
         auto mv = make_virtual_shared<Derived, Pol>();
         seen = {}; m_vsptr::fn(mv); std::printf("arg kind=make_virtual_shared same=%%d get=%%d\n", seen.as_derived == mv.get().get(), &*mv == mv.get().get());
         g_owner.reset();
@@ -292,6 +311,7 @@ int main() {
         MoveOnly::moves = 0; seen = {}; n_moveonly::fn(b, MoveOnly()); std::printf("nv cat=moveonly got=%%d moves_le1=%%d\n", seen.extra == 9, MoveOnly::moves <= 1);
         Tracked::copies = Tracked::moves = 0; Tracked r = n_ret::fn(b); std::printf("ret cat=value got=%%d copies=%%d moves=%%d\n", r.v == 7, Tracked::copies, Tracked::moves);
         Tracked t4; Tracked& rr = n_retref::fn(b, t4); std::printf("ret cat=ref same=%%d\n", &rr == &t4);
+        RBase* rc = n_retcov::fn(b); std::printf("ret cat=derived-pointer adjusted=%%d value=%%d\n", rc == static_cast<RBase*>(&g_rder), rc == static_cast<RBase*>(&g_rder) && rc->r == 7);
     }
     return 0;
 }
@@ -402,6 +422,7 @@ def static_offsets_sources(perm, checked):
         ("m4", "int", "(virtual_<R1&>, int, virtual_<R1&>, virtual_<R2&>)", "r1 i r1 r2"),
         ("m5", "int", "(virtual_<R2&>, virtual_<R2&>, int)", "r2 r2 i"),
         ("m6", "int", "(virtual_<R3&>)", "r3"),
+        ("m7", "int", "(virtual_ptr<R1>, virtual_ptr<R2>)", "p1 p2"),
     ]
     decls = "\n".join("declare_method(%s, %s, %s);" % (methods[i][1], methods[i][0], methods[i][2]) for i in perm)
     domain = r'''
@@ -411,6 +432,7 @@ def static_offsets_sources(perm, checked):
 struct P : %(base)s::rebind<P>::replace<::yorel::yomm2::policy::error_handler, ::yorel::yomm2::policy::throw_error> {};
 #define YOMM2_DEFAULT_POLICY P
 #include <yorel/yomm2/keywords.hpp>
+using yorel::yomm2::virtual_ptr;
 #if __has_include("slots.hpp")
 #include "slots.hpp"
 #define HAVE_SLOTS 1
@@ -449,6 +471,8 @@ template<class T> struct Slot {
 };
 using Late = Slot<use_classes<J, X3, X1>>;
 using Late2 = Slot<use_classes<JJ, X3, X2>>;
+define_method(int, m7, (virtual_ptr<R1>, virtual_ptr<R2>)) { return 70; }
+define_method(int, m7, (virtual_ptr<X1>, virtual_ptr<X2>)) { return 71; }
 define_method(int, m6, (R3&)) { return 60; }
 define_method(int, m6, (X3&)) { return 61; }
 define_method(int, m1, (R1&)) { return 10; }
@@ -477,13 +501,14 @@ int main(int argc, char** argv) {
         g.add_forward_declarations().write_forward_declarations(f);
         g.write_static_offsets(f);
     }
-    std::printf("static %d %d %d %d %d %d\n",
+    std::printf("static %d %d %d %d %d %d %d\n",
         (int)detail::has_static_offsets<method_class(int, m1, (virtual_<R1&>))>::value,
         (int)detail::has_static_offsets<method_class(int, m2, (int, virtual_<R2&>))>::value,
         (int)detail::has_static_offsets<method_class(int, m3, (virtual_<R1&>, virtual_<R2&>))>::value,
         (int)detail::has_static_offsets<method_class(int, m4, (virtual_<R1&>, int, virtual_<R1&>, virtual_<R2&>))>::value,
         (int)detail::has_static_offsets<method_class(int, m5, (virtual_<R2&>, virtual_<R2&>, int))>::value,
-        (int)detail::has_static_offsets<method_class(int, m6, (virtual_<R3&>))>::value);
+        (int)detail::has_static_offsets<method_class(int, m6, (virtual_<R3&>))>::value,
+        (int)detail::has_static_offsets<method_class(int, m7, (virtual_ptr<R1>, virtual_ptr<R2>))>::value);
     for (auto& m : P::methods) {
         std::printf("ss %s [", m.name.data());
         std::size_t n = 2 * m.arity() - 1;
@@ -504,6 +529,10 @@ int main(int argc, char** argv) {
         std::snprintf(buf, sizeof buf, "m4(%s,1,%s,%s)", n1[i], n1[k], n2[j]); run(buf, [&] { return m4(*a1[i], 1, *a1[k], *a2[j]); }); }
     for (int i = 0; i < 4; i++) for (int j = 0; j < 4; j++) {
         std::snprintf(buf, sizeof buf, "m5(%s,%s,2)", n2[i], n2[j]); run(buf, [&] { return m5(*a2[i], *a2[j], 2); }); }
+    // virtual_ptr arguments carry their v-table pointer: the offsets are used (and cross-checked) all the same
+    for (int i = 0; i < 5; i++) for (int j = 0; j < 4; j++) {
+        std::snprintf(buf, sizeof buf, "m7(%s,%s)", n1[i], n2[j]);
+        run(buf, [&] { return m7(virtual_ptr<R1>(*a1[i]), virtual_ptr<R2>(*a2[j])); }); }
     R3 r3; X3 x3;
     run("m6(R3)", [&] { return m6(r3); });
     run("m6(X3)", [&] { return m6(x3); });
@@ -534,6 +563,9 @@ int main(int argc, char** argv) {
         std::snprintf(buf, sizeof buf, "m4(%s,1,%s,%s)", k1[i], k1[5 - i], n2[jj]); run(buf, [&] { return m4(*b1[i], 1, *b1[5 - i], *a2[jj]); }); }
     for (int i = 0; i < 4; i++) for (int jj = 0; jj < 4; jj++) {
         std::snprintf(buf, sizeof buf, "m5(%s,%s,2)", n2[i], n2[jj]); run(buf, [&] { return m5(*a2[i], *a2[jj], 2); }); }
+    for (int i = 0; i < 6; i++) for (int jj = 0; jj < 4; jj++) {
+        std::snprintf(buf, sizeof buf, "m7(%s,%s)", k1[i], n2[jj]);
+        run(buf, [&] { return m7(virtual_ptr<R1>(*b1[i]), virtual_ptr<R2>(*a2[jj])); }); }
     run("m6(R3)", [&] { return m6(r3); });
     run("m6(X3)", [&] { return m6(x3); });
     run("m6(J)", [&] { return m6(j); });
@@ -972,18 +1004,26 @@ def prog_policy_template(reg, rng, npol=3, max_calls=60):
         cls.append("struct K%d%s { %s };" % (i, (" : " + bases) if bases else "", " ".join(body)))
     script = ["class %d %d %d %s" % (i + 1, ids[i], 1 if reg.abstract[i] else 0, " ".join(str(ids[c]) for c in [i] + sorted(anc[i]))) for i in range(n)]
     keys, aliases, fns, members, calls = [], [], [], [], []
+    twin_script = []
     for m in reg.methods:
         vps = iter(m["vp"])
         params = [("int" if ch == "N" else "virtual_<K%d&>" % next(vps)) for ch in m["shape"]]
         keys.append("struct key%d;" % m["key"])
         aliases.append("template<class P> using M%d = method<key%d, int(%s), P>;" % (m["key"], m["key"], ", ".join(params)))
         script.append("method %d %s %s" % (m["key"], m["shape"].replace("P", "V"), " ".join(str(ids[c]) for c in m["vp"])))
+        # a twin method: another key, the same signature, and the very same functions as its definitions
+        keys.append("struct twin%d;" % m["key"])
+        aliases.append("template<class P> using T%d = method<twin%d, int(%s), P>;" % (m["key"], m["key"], ", ".join(params)))
+        twin_script.append("method %d %s %s" % (m["key"] + 100, m["shape"].replace("P", "V"), " ".join(str(ids[c]) for c in m["vp"])))
         for d, vp in m["defs"]:
             it = iter(vp)
             ps = [("int" if ch == "N" else "K%d&" % next(it)) for ch in m["shape"]]
             fns.append("int d%d(%s) { return %d; }" % (d, ", ".join(ps), d))
             members.append("    typename M%d<P>::template add_function<d%d> r%d;" % (m["key"], d, d))
+            members.append("    typename T%d<P>::template add_function<d%d> t%d;" % (m["key"], d, d))
             script.append("def %d %d %s" % (m["key"], d, " ".join(str(ids[c]) for c in vp)))
+            twin_script.append("def %d %d %s" % (m["key"] + 100, d, " ".join(str(ids[c]) for c in vp)))
+    script.extend(twin_script)
     script.append("update")
     for m in reg.methods:
         doms = [[c for c in desc[v] if c in concrete] for v in m["vp"]]
@@ -997,6 +1037,8 @@ def prog_policy_template(reg, rng, npol=3, max_calls=60):
             args = [("7" if ch == "N" else "static_cast<K%d&>(o%d)" % (v, c)) for ch, (v, c) in zip(m["shape"], _pair_virtual(m["shape"], m["vp"], t))]
             calls.append("    run([&] { return M%d<P>::fn(%s); });" % (m["key"], ", ".join(args)))
             script.append("call %d %s" % (m["key"], " ".join(str(ids[c]) for c in t)))
+            calls.append("    run([&] { return T%d<P>::fn(%s); });" % (m["key"], ", ".join(args)))
+            script.append("call %d %s" % (m["key"] + 100, " ".join(str(ids[c]) for c in t)))
     pols = ["Pol%d" % k for k in range(npol)]
     body, sweeps = [], 0
     for k, p in enumerate(pols):
